@@ -59,8 +59,14 @@ def table(rnd, n=None, numeric=False):
     return rows
 
 
+# script globals that carry the name of a row field: a row that lacks the field reads the global (ordinary variable lookup: row members first, then
+# the variables object, then the globals)
+SCRIPT_GLOBALS = {}
+
+
 def run_call(src, globals_):
     log = []
+    globals_ = dict(SCRIPT_GLOBALS, **globals_)
     out = impl.run_model(model(src), globals_, log, 100000, debug=True)
     return out, [m for m in log if 'failed with error' in m]
 
@@ -145,7 +151,7 @@ def expr_text(e):
 
 
 def ref_eval(e, row, variables):
-    g = dict(variables or {})
+    g = dict(SCRIPT_GLOBALS, **(variables or {}))
     ref = interp.Ref(g, [], library=True)
     return ref.ev(e, dict(row))
 
@@ -153,7 +159,7 @@ def ref_eval(e, row, variables):
 # ---- the six relational checks ------------------------------------------------------------------------------------------------------------
 
 def check_filter(rows, e, variables):
-    d = {'kind': 'filter', 'rows': enc(rows), 'expr': expr_text(e), 'variables': enc(variables)}
+    d = {'kind': 'filter', 'rows': enc(rows), 'expr': expr_text(e), 'variables': enc(variables), 'script_globals': enc(SCRIPT_GLOBALS)}
     data = copy.deepcopy(rows)
     src = "return dataFilter(dd, ee, vs)" if variables is not None else "return dataFilter(dd, ee)"
     out, failed = run_call(src, {'dd': data, 'ee': expr_text(e), 'vs': variables})
@@ -172,7 +178,7 @@ def check_filter(rows, e, variables):
 
 
 def check_calculated(rows, e, variables, field):
-    d = {'kind': 'calc', 'rows': enc(rows), 'expr': expr_text(e), 'variables': enc(variables), 'field': field}
+    d = {'kind': 'calc', 'rows': enc(rows), 'expr': expr_text(e), 'variables': enc(variables), 'field': field, 'script_globals': enc(SCRIPT_GLOBALS)}
     data = copy.deepcopy(rows)
     src = "return dataCalculatedField(dd, ff, ee, vs)" if variables is not None else "return dataCalculatedField(dd, ff, ee)"
     out, failed = run_call(src, {'dd': data, 'ee': expr_text(e), 'vs': variables, 'ff': field})
@@ -188,6 +194,48 @@ def check_calculated(rows, e, variables, field):
         raise Violation('dataCalculatedField(%r, %r) failed or did not return the data array: %r %r' % (field, d['expr'], out, failed[:1]), d, 'calc-fails')
     if not rows_equal(data, exp, tol=True):
         raise Violation('dataCalculatedField(%r, %r) gives %r, expected %r' % (field, d['expr'], data[:3], exp[:3]), d, 'calc-values')
+    return len(rows)
+
+
+IMPURE_EXPRS = ['tick()', 'arrayNew()', 'arrayNew(tick())', "objectNew('k', tick())", 'tick() + 100', 'arrayNew(1, 2)', 'objectNew()', "if(tick() > 2, 'late', 'early')",
+                'tick() * 0 + n', 'arrayNew(vv)']
+
+
+def check_calculated_per_row(rows, text, with_variables, field):
+    """The expression is evaluated for every row, in row order - also when it mentions no field of the row: a function with an effect runs
+    once per row, and an expression that builds an array / object gives every row its own."""
+    d = {'kind': 'calc-per-row', 'rows': enc(rows), 'expr': text, 'with_variables': with_variables, 'field': field}
+    data = copy.deepcopy(rows)
+    ticks = []
+
+    def tick(args, options):
+        ticks.append(len(ticks) + 1)
+        return float(len(ticks))
+    src = "return dataCalculatedField(dd, ff, ee, objectNew('vv', 5))" if with_variables else "return dataCalculatedField(dd, ff, ee)"
+    out, failed = run_call(src, {'dd': data, 'ee': text, 'ff': field, 'tick': tick, 'vv': 5.0})
+    if out.kind != 'ok' or failed or out.value is not data:
+        raise Violation('dataCalculatedField(%r, %r) failed or did not return the data array: %r %r' % (field, text, out, failed[:1]), d, 'calc-fails')
+    uses_tick = 'tick()' in text
+    if uses_tick and ticks != list(range(1, len(rows) + 1)):
+        raise Violation('dataCalculatedField(%r, %r) over %d rows called the function in the expression %d times' % (field, text, len(rows), len(ticks)), d,
+                        'calc-per-row-evaluation')
+    from pbt.gen.reader import parse_expr
+    tree = parse_expr(text)
+    for i, (r, orig) in enumerate(zip(data, rows)):
+        counter = [float(i)]
+
+        def ref_tick(args, ref, counter=counter):
+            counter[0] += 1
+            return counter[0]
+        ref = interp.Ref({'vv': 5.0}, [], host={'tick': ref_tick}, library=True)
+        want = ref.ev(tree, dict(orig))
+        if field not in r or not same(r[field], want):
+            raise Violation('dataCalculatedField(%r, %r): row %d gets %r, evaluating the expression for that row gives %r' % (field, text, i, r.get(field), want), d,
+                            'calc-per-row-value')
+    containers = [r[field] for r in data if isinstance(r.get(field), (list, dict))]
+    if text.startswith(('arrayNew', 'objectNew')) and len({id(c) for c in containers}) != len(containers):
+        raise Violation('dataCalculatedField(%r, %r): several rows share ONE array / object (changing it in one row changes the others)' % (field, text), d,
+                        'calc-shared-container')
     return len(rows)
 
 
@@ -299,7 +347,7 @@ def check_aggregate(rows, cats, measures):
 
 
 def check_join(left, right, le, re_, is_left, variables):
-    d = {'kind': 'join', 'left': enc(left), 'right': enc(right), 'lexpr': expr_text(le), 'rexpr': expr_text(re_) if re_ else None, 'isLeft': is_left,
+    d = {'kind': 'join', 'script_globals': enc(SCRIPT_GLOBALS), 'left': enc(left), 'right': enc(right), 'lexpr': expr_text(le), 'rexpr': expr_text(re_) if re_ else None, 'isLeft': is_left,
          'variables': enc(variables)}
     L, R = copy.deepcopy(left), copy.deepcopy(right)
     args = ['ll', 'rr', 'le']
@@ -495,10 +543,19 @@ def run_shard(ctx, spec):
         rnd = random.Random(seed)
         op = rnd.choice(['filter', 'calc', 'sort', 'top', 'agg', 'join', 'join'])
         variables = {'vv': rnd.choice([1.0, 'a', None])} if rnd.random() < 0.4 else None
+        SCRIPT_GLOBALS.clear()
+        if op in ('filter', 'calc', 'join') and rnd.random() < 0.3:
+            for f in rnd.sample(FIELDS, rnd.randint(1, 2)):
+                SCRIPT_GLOBALS[f] = copy.deepcopy(rnd.choice(KEYS[1:]))
+            if variables is not None and rnd.random() < 0.3:
+                variables[rnd.choice(FIELDS)] = rnd.choice(KEYS[1:])      # the variables object shadows the global, the row shadows both
         if op == 'filter':
             rows = table(rnd)
             e = fix_str_nodes(gen_row_expr(rnd, 'bool'))
             res = check_filter(rows, e, variables)
+        elif op == 'calc' and rnd.random() < 0.25:
+            rows = table(rnd)
+            res = check_calculated_per_row(rows, rnd.choice(IMPURE_EXPRS), rnd.random() < 0.4, rnd.choice(['z', 'a', 'new']))
         elif op == 'calc':
             rows = table(rnd)
             e = fix_str_nodes(gen_row_expr(rnd, 'value'))
@@ -534,12 +591,16 @@ def run_shard(ctx, spec):
 def replay(detail):
     from pbt.gen.reader import parse_expr
     k = detail['kind']
+    SCRIPT_GLOBALS.clear()
+    SCRIPT_GLOBALS.update(dec(detail.get('script_globals') or {}))
     if k == 'csv':
         check_csv(detail['tz'], detail['names'], dec(detail['rows']), detail['parts'])
     elif k == 'filter':
         check_filter(dec(detail['rows']), parse_expr(detail['expr']), dec(detail['variables']))
     elif k == 'calc':
         check_calculated(dec(detail['rows']), parse_expr(detail['expr']), dec(detail['variables']), detail['field'])
+    elif k == 'calc-per-row':
+        check_calculated_per_row(dec(detail['rows']), detail['expr'], detail['with_variables'], detail['field'])
     elif k == 'sort':
         check_sort(dec(detail['rows']), detail['sorts'])
     elif k == 'top':
